@@ -5,6 +5,7 @@ package main
 // generator (see exec.go); this file only knows about Int/Bool/Array/uninterpreted sorts.
 
 import (
+	"sync"
 	"fmt"
 	"math/big"
 	"sort"
@@ -393,8 +394,14 @@ func Forall(bound []*Term, body *Term, pats ...*Term) *Term {
 		vs := reindexVariants(bound, body)
 		if len(vs) > 1 {
 			var cs []*Term
-			for _, v := range vs {
-				cs = append(cs, &Term{Op: "forall", S: SBool, Bound: bound, Args: []*Term{v}})
+			for k, v := range vs {
+				q := &Term{Op: "forall", S: SBool, Bound: bound, Args: []*Term{v}}
+				if k > 0 {
+					variantMu.Lock()
+					variantTerm[q] = true
+					variantMu.Unlock()
+				}
+				cs = append(cs, q)
 			}
 			return And(cs...)
 		}
@@ -606,19 +613,28 @@ func (t *Term) write(sb *strings.Builder) {
 			sb.WriteString(")")
 		}
 		sb.WriteString(") ")
+		var alts [][]*Term
 		if len(t.Pat) > 0 {
+			alts = [][]*Term{t.Pat}
+		} else if t.Op == "forall" && explicitTriggers {
+			alts = inferAltPatterns(t)
+		}
+		if len(alts) > 0 {
 			sb.WriteString("(! ")
 		}
 		t.Args[0].write(sb)
-		if len(t.Pat) > 0 {
+		for _, alt := range alts {
 			sb.WriteString(" :pattern (")
-			for i, p := range t.Pat {
+			for i, p := range alt {
 				if i > 0 {
 					sb.WriteString(" ")
 				}
 				p.write(sb)
 			}
-			sb.WriteString("))")
+			sb.WriteString(")")
+		}
+		if len(alts) > 0 {
+			sb.WriteString(")")
 		}
 		sb.WriteString(")")
 		return
@@ -865,4 +881,148 @@ func mentionsInnerBound(body, r *Term) bool {
 	}
 	scan(r)
 	return found
+}
+
+// Re-indexed variants of a quantified formula are equivalent restatements that help instantiation when the formula
+// is a HYPOTHESIS.  As part of a GOAL they only add proof burden, so stripVariants drops them from positive
+// positions (conjuncts, consequents, quantifier bodies); this is sound because each variant is implied by the original.
+var variantTerm = map[*Term]bool{}
+var variantMu sync.Mutex
+
+func stripVariants(t *Term) *Term {
+	switch t.Op {
+	case "and":
+		var keep []*Term
+		changed := false
+		variantMu.Lock()
+		for _, a := range t.Args {
+			if variantTerm[a] {
+				changed = true
+				continue
+			}
+			keep = append(keep, a)
+		}
+		variantMu.Unlock()
+		for i, a := range keep {
+			b := stripVariants(a)
+			if b != a {
+				keep[i] = b
+				changed = true
+			}
+		}
+		if !changed {
+			return t
+		}
+		return And(keep...)
+	case "=>":
+		if len(t.Args) == 2 {
+			b := stripVariants(t.Args[1])
+			if b != t.Args[1] {
+				return Implies(t.Args[0], b)
+			}
+		}
+	case "forall":
+		if len(t.Args) == 1 {
+			b := stripVariants(t.Args[0])
+			if b != t.Args[0] {
+				return &Term{Op: "forall", S: SBool, Bound: t.Bound, Args: []*Term{b}, Pat: t.Pat}
+			}
+		}
+	}
+	return t
+}
+
+// inferAltPatterns: the solvers' own trigger inference avoids terms with arithmetic inside, so a hypothesis such as
+//   forall i, q. ... select(M, 32*i + q) == select(F(i), q)
+// is left without a usable trigger unless a ground F(i0) happens to exist.  For quantifiers whose body indexes an array
+// at a compound arithmetic index that mentions bound variables, explicit alternative triggers are emitted: every
+// select / uninterpreted application that mentions all bound variables and contains no logical structure.
+// explicitTriggers: disabled.  Measured on the whole suite, replacing the solvers' own trigger inference by explicit
+// triggers fixed a few goals and broke many more (explicit :pattern annotations switch automatic inference off for
+// that quantifier, and arithmetic subterms in triggers are matched syntactically).
+var explicitTriggers = false
+
+func inferAltPatterns(q *Term) [][]*Term {
+	bound := map[string]bool{}
+	for _, b := range q.Bound {
+		bound[b.Op] = true
+	}
+	special := false
+	var cands []*Term
+	seen := map[string]bool{}
+	var vars func(t *Term, out map[string]bool) bool // returns false if t contains logical structure or quantifiers
+	vars = func(t *Term, out map[string]bool) bool {
+		switch t.Op {
+		case "and", "or", "not", "=>", "ite", "forall", "exists", "=", "<", "<=", ">", ">=", "distinct":
+			return false
+		}
+		if len(t.Args) == 0 {
+			if bound[t.Op] {
+				out[t.Op] = true
+			}
+			return true
+		}
+		for _, a := range t.Args {
+			if !vars(a, out) {
+				return false
+			}
+		}
+		return true
+	}
+	var walk func(t *Term)
+	walk = func(t *Term) {
+		if t.Op == "forall" || t.Op == "exists" {
+			return // nested quantifiers keep their own triggers
+		}
+		for _, a := range t.Args {
+			walk(a)
+		}
+		if len(t.Args) == 0 || t.Op == "num" {
+			return
+		}
+		isApp := t.Op == "select" || !builtinOps[t.Op]
+		if !isApp {
+			return
+		}
+		vs := map[string]bool{}
+		if !vars(t, vs) || len(vs) == 0 {
+			return
+		}
+		if t.Op == "select" && len(t.Args) == 2 {
+			idx := t.Args[1]
+			iv := map[string]bool{}
+			if (idx.Op == "+" || idx.Op == "-" || idx.Op == "*") && vars(idx, iv) && len(iv) > 0 {
+				special = true
+			}
+		}
+		if len(vs) == len(bound) {
+			k := t.String()
+			if !seen[k] && len(k) < 600 {
+				seen[k] = true
+				cands = append(cands, t)
+			}
+		}
+	}
+	walk(q.Args[0])
+	if !special || len(cands) == 0 {
+		return nil
+	}
+	// drop candidates that contain another candidate (prefer the smaller trigger), keep at most 4
+	var out [][]*Term
+	for _, c := range cands {
+		cs := c.String()
+		contains := false
+		for _, d := range cands {
+			if d != c && len(d.String()) < len(cs) && strings.Contains(cs, d.String()) {
+				contains = true
+			}
+		}
+		if !contains {
+			out = append(out, []*Term{c})
+		}
+		if len(out) >= 4 {
+			break
+		}
+	}
+	return out
 }
